@@ -99,7 +99,7 @@ func solveObl(vc *VC, o *Obl, dir string, tier string, seed int, idx int) {
 			os.WriteFile(fileNQ, []byte(sc), 0o644)
 		}
 	}
-	quickT, slowT := 6, 20
+	quickT, slowT := 8, 30
 	if tier == "thorough" {
 		quickT, slowT = 20, 90
 	}
@@ -172,16 +172,40 @@ func solveObl(vc *VC, o *Obl, dir string, tier string, seed int, idx int) {
 			t = 8
 		}
 		cctx, cancel := context.WithCancel(ctx)
-		ch := make(chan solveResult, 2)
+		ch := make(chan tagged, 5)
+		n := 0
 		for _, s := range solvers[1:] {
-			go func(s solverSpec) { ch <- runSolver(cctx, s, file, t, seed) }(s)
+			n++
+			go func(s solverSpec) { ch <- tagged{runSolver(cctx, s, file, t, seed), false} }(s)
 		}
-		for i := 0; i < 2; i++ {
+		if candidate == nil {
+			// nothing answered within the short budget (a loaded machine, or a genuinely hard
+			// query): give the best solver the long budget as well, on every variant
+			n++
+			go func() { ch <- tagged{runSolver(cctx, solvers[0], file, t, seed+1), false} }()
+			if fileNA != file {
+				n++
+				go func() { ch <- tagged{runSolver(cctx, solvers[0], fileNA, t, seed+1), true} }()
+			}
+			if fileNQ != "" {
+				n++
+				go func() {
+					r := runSolver(cctx, solvers[0], fileNQ, t, seed+1)
+					r.solver = "z3-new(qf)"
+					ch <- tagged{r, true}
+				}()
+			}
+		}
+		for i := 0; i < n; i++ {
 			rr := <-ch
 			o.Time += rr.time
-			if rr.result == "unsat" || rr.result == "sat" {
-				final, decided = rr, true
+			if rr.result == "unsat" || (rr.result == "sat" && !rr.na) {
+				final, decided = rr.solveResult, true
 				break
+			}
+			if rr.result == "sat" && rr.na && candidate == nil {
+				c := rr.solveResult
+				candidate = &c
 			}
 		}
 		cancel()
